@@ -83,7 +83,7 @@ def _check_ext(case) -> list[Fail]:
             f.append(Fail("fixed-point", "order-of-set-valued-list:" + p, f"{json.dumps(d1)[:150]} -> {json.dumps(d2)[:150]}"))
         else:
             f.append(Fail("fixed-point", p, f"{json.dumps(d1)[:150]} -> {json.dumps(d2)[:150]}"))
-    if (e2.name, str(e2.version), set(e2.runtime_reqs)) != (a["name"], ".".join(map(str, a["version"])), set(a["reqs"])):
+    if (e2.name, str(e2.version), set(e2.runtime_reqs)) != (a["name"], extgen.version_str(a), set(a["reqs"])):
         f.append(Fail("fields", "header", f"{e2.name} {e2.version} {e2.runtime_reqs}"))
     for x, y in ((e, e2),):
         if list(x.types) != list(y.types) or list(x.operations) != list(y.operations) or list(x.values) != list(y.values):
